@@ -1,17 +1,29 @@
 """C14 — real-weighted equivalence test and minimisation are exact.
 
-The library's float linear algebra is modelled, not verified; its answers are compared with
-CERTIFIED answers: an (unverified) exact Tzeng search over ℚ produces either an equivalence
-certificate, accepted by the verified checker `equivCertCheck` (`equivCert_sound`: all words have
-equal weight), or a word on which the verified evaluator `MAut.weight` gives different weights.
-Minimal size: a Hankel-minor certificate accepted by `rankLowerCheck` (`rankLower_sound`: every
-equivalent automaton has at least that many states) plus agreement of `A.min` with `A` on all words
-up to the length that decides equivalence of automata of these sizes (tolerance 1e-6)."""
+The library's float linear algebra is modelled, not verified.  PRIMARY ORACLE (since round 3): the VERIFIED exact-arithmetic
+model of the algorithm itself, run by the Lean driver on the dense form `WFSA.simple` of the two automata over ℚ:
+  * op "tzeng_equiv" = `tzSearch` (`Model/Tzeng.lean`), the model of `Simple.counterexample`, with the alphabet iterated in the
+    order the REAL run iterated it (`set(A.arcs) | set(B.arcs)` under this hash seed).  `equiv_decides_rat` /
+    `tzSearch_decides`: it answers "none" iff all words have equal weight (any iteration order, fuel dim A + dim B);
+    `counterexampleQ_sound`: a returned word has the two returned weights and they differ.
+  * op "tzeng_min" = `minQ`, the model of `Simple.min`; `minQ_spec`: its dimension is the rank of the Hankel matrix = the
+    minimum number of states, and it has the same weights.
+The dense form is built here from the case descriptor exactly as `WFSA.simple` builds it (`simple_q`: ε-removal as
+`base.WFSA.epsremove`, states that `renumber` drops are dropped) over Fractions and compared entry by entry with the real
+`m.simple` (floats read as exact rationals: identical when all weights are dyadic, 1e-12 otherwise) — so the automaton the
+verified procedure decides is the automaton the code ran on.
+CROSS-CHECK (kept from round 1/2): an independent, unverified exact Tzeng search (`harness/qlinalg.py`, different state space:
+no state dropped, own order) produces an equivalence certificate accepted by the verified checker `equivCertCheck`
+(`equivCert_sound`) or a separating word, and a Hankel-minor certificate accepted by `rankLowerCheck` (`rankLower_sound`); the
+two verdicts (and the two ranks, and all exact weights) must agree — a disagreement is an infrastructure error (exit 2)."""
 import hashlib
 import json
 from fractions import Fraction
 
 from harness import common, gen, qlinalg
+
+ORACLE = ("verified decision procedure: Lean driver ops tzeng_equiv / tzeng_min = Model/Tzeng.lean tzSearch / minQ "
+          "(Proofs/Tzeng.lean equiv_decides_rat, tzSearch_decides, counterexampleQ_sound; Proofs/TzengMin.lean minQ_spec, minQ_terminates)")
 
 
 def _decode_word(w):
@@ -22,25 +34,240 @@ def _decode_word(w):
     return out
 
 
+def _exc(e):
+    return {"exc": type(e).__name__, "msg": str(e)[:200]}
+
+
+def _enc_ce(ce):
+    return None if ce is None else {"word": [common.enc_sym(s) for s in _decode_word(ce[0])], "va": float(ce[1]), "vb": float(ce[2])}
+
+
+def _vec(v):
+    return [float(x) for x in v]
+
+
+def _dump_simple(m):
+    """the dense form `m.simple` as the library built it, the dict order of its matrices, and the state behind every index
+    (replay of `epsremove.renumber`: `rename` hands the states to a fresh Integerizer in the order I, F, arcs)"""
+    S = m.simple
+    er = m.epsremove
+    idx = {}
+    for q, _ in er.I:
+        idx.setdefault(q, len(idx))
+    for q, _ in er.F:
+        idx.setdefault(q, len(idx))
+    for i, _, j, _ in er.arcs():
+        idx.setdefault(i, len(idx))
+        idx.setdefault(j, len(idx))
+    rn = er.renumber
+    ok = (len(idx) == int(S.dim) == rn.dim and all(rn.start[idx[q]] == w for q, w in er.I) and all(rn.stop[idx[q]] == w for q, w in er.F)
+          and all(rn.delta[idx[i]][a][idx[j]] == w for i, a, j, w in er.arcs()))
+    order = [None] * len(idx)
+    for q, i in idx.items():
+        order[i] = common.enc_sym(q)
+    return {"dim": int(S.dim), "order": order, "order_ok": bool(ok), "start": _vec(S.start), "stop": _vec(S.stop),
+            "arcs": [[common.enc_sym(a), [_vec(r) for r in M]] for a, M in S.arcs.items()]}
+
+
+REPEAT = 4   # the long-lived A is compared with 2*REPEAT temporaries (b, a, b, a, …) that die after each comparison
+
+
 def impl(case):
-    A = common.mk_wfsa(case["a"], "Float", "field")
-    B = common.mk_wfsa(case["b"], "Float", "field")
+    mk = lambda d: common.mk_wfsa(d, "Float", "field")  # noqa
+    A, B = mk(case["a"]), mk(case["b"])
     out = {}
     try:
-        ce = A.counterexample(B)
-        out["ce"] = None if ce is None else {"word": [common.enc_sym(s) for s in _decode_word(ce[0])], "va": float(ce[1]), "vb": float(ce[2])}
+        out["ce"] = _enc_ce(A.counterexample(B))
         out["eq"] = bool(A == B)
         out["hash_eq"] = hash(A) == hash(B)
     except Exception as e:  # noqa
-        out["ce"] = {"exc": type(e).__name__, "msg": str(e)[:200]}
+        out["ce"] = _exc(e)
     try:
-        m = common.mk_wfsa(case["a"], "Float", "field").min
+        out["simple_a"], out["simple_b"] = _dump_simple(A), _dump_simple(B)
+        # the iteration order of `for a in alphabet` in this process (same expression, same operands, same hash seed)
+        out["alphabet"] = [common.enc_sym(s) for s in (set(A.simple.arcs) | set(B.simple.arcs))]
+    except Exception as e:  # noqa
+        out["simple_exc"] = _exc(e)
+    try:
+        # the same object compared again and again with partners that are garbage by the next comparison
+        seq = []
+        for k in range(2 * REPEAT):
+            t = mk(case["b" if k % 2 == 0 else "a"])
+            seq.append([_enc_ce(A.counterexample(t)), bool(A == t)])
+            del t
+        out["seq"] = seq
+    except Exception as e:  # noqa
+        out["seq"] = _exc(e)
+    try:
+        A2 = mk(case["a"])
+        m = A2.min
         out["min_dim"] = m.dim
         out["min_vals"] = [float(m(tuple(common.dec_sym(s) for s in x))) for x in case["xs"]]
         out["a_vals"] = [float(A(tuple(common.dec_sym(s) for s in x))) for x in case["xs"]]
     except Exception as e:  # noqa
-        out["min_dim"] = {"exc": type(e).__name__, "msg": str(e)[:200]}
+        out["min_dim"] = _exc(e)
+        return out
+    try:
+        sm = A2.simple.min
+        out["min_src"] = _dump_simple(A2)
+        out["min_simple"] = {"dim": int(sm.dim), "start": _vec(sm.start), "stop": _vec(sm.stop),
+                             "arcs": [[common.enc_sym(a), [_vec(r) for r in M]] for a, M in sm.arcs.items()]}
+        out["fwd_basis"] = [_vec(r) for r in A2.simple.forward_basis()]
+    except Exception as e:  # noqa
+        out["min_simple"] = _exc(e)
     return out
+
+
+# ----------------------------------------------------------------------------- the dense form, mirrored over ℚ
+def simple_q(desc):
+    """`field_wfsa.WFSA.simple` over Fractions, states by name: {"states": [key…] (the order `renumber` would give them if sets
+    were iterated in sorted order), "start"/"stop": {key: w}, "arcs": {symkey: {(ki, kj): w}}, "syms": {symkey: json}};
+    None when I - E is singular (no ε-closure).  Mirrors: add_I/add_F/add_arc accumulate; `I`/`F` skip zero entries, `arcs()`
+    does not; `epsremove` = spawn(keep_stop) + start/arc weights pushed through the ε-closure S (`S.outgoing` = non-zero
+    entries); `rename` keeps the states of I, F and of every arc (also zero-weight ones) and nothing else; the alphabet is
+    that of the arcs kept."""
+    key = common.symkey
+    start, stop, delta, states = {}, {}, {}, []
+
+    def st(q):
+        k = key(q)
+        if k not in states:
+            states.append(k)
+        return k
+    for q, w in desc["start"]:
+        k = st(q)
+        start[k] = start.get(k, Fraction(0)) + Fraction(w)
+    for q, w in desc["stop"]:
+        k = st(q)
+        stop[k] = stop.get(k, Fraction(0)) + Fraction(w)
+    for i, a, j, w in desc["arcs"]:
+        ki, kj = st(i), st(j)
+        d = delta.setdefault(ki, {}).setdefault(key(a), {})
+        d[kj] = d.get(kj, Fraction(0)) + Fraction(w)
+    syms = {key(e[1]): e[1] for e in desc["arcs"]}
+    n = len(states)
+    ix = {k: i for i, k in enumerate(states)}
+    eps = key("")
+    E = [[Fraction(0)] * n for _ in range(n)]
+    for ki, T in delta.items():
+        for kj, w in T.get(eps, {}).items():
+            E[ix[ki]][ix[kj]] += w
+    if any(x != 0 for row in E for x in row):
+        S = qlinalg.inverse([[Fraction(int(i == j)) - E[i][j] for j in range(n)] for i in range(n)])
+        if S is None:
+            return None
+    else:
+        S = [[Fraction(int(i == j)) for j in range(n)] for i in range(n)]
+    out = {k: [states[j] for j in range(n) if S[ix[k]][j] != 0] for k in states}
+    # epsremove
+    nstart, nstop, ndelta = {}, {k: w for k, w in stop.items() if w != 0}, {}
+    for ki, w in start.items():
+        if w != 0:
+            for kk in out[ki]:
+                nstart[kk] = nstart.get(kk, Fraction(0)) + w * S[ix[ki]][ix[kk]]
+    for ki, T in delta.items():
+        for ka, J in T.items():
+            if ka == eps:
+                continue
+            for kj, w in J.items():
+                for kk in out[kj]:
+                    d = ndelta.setdefault(ki, {}).setdefault(ka, {})
+                    d[kk] = d.get(kk, Fraction(0)) + w * S[ix[kj]][ix[kk]]
+    # renumber
+    order = []
+
+    def see(k):
+        if k not in order:
+            order.append(k)
+    for k, w in nstart.items():
+        if w != 0:
+            see(k)
+    for k in nstop:
+        see(k)
+    arcs = {}
+    for ki, T in ndelta.items():
+        for ka, J in T.items():
+            for kk, w in J.items():
+                see(ki)
+                see(kk)
+                arcs.setdefault(ka, {})[(ki, kk)] = w
+    return {"states": order, "start": {k: w for k, w in nstart.items() if w != 0}, "stop": nstop, "arcs": arcs,
+            "syms": {k: syms[k] for k in arcs}}
+
+
+def dense(sq, order, arc_order=None):
+    """(start, [(sym json, matrix)…], stop) of `simple_q`'s automaton with the states in the given order"""
+    ix = {k: i for i, k in enumerate(order)}
+    n = len(order)
+    start, stop = [Fraction(0)] * n, [Fraction(0)] * n
+    for k, w in sq["start"].items():
+        start[ix[k]] += w
+    for k, w in sq["stop"].items():
+        stop[ix[k]] += w
+    mats = []
+    for ka in (arc_order if arc_order is not None else sorted(sq["arcs"])):
+        M = [[Fraction(0)] * n for _ in range(n)]
+        for (ki, kj), w in sq["arcs"][ka].items():
+            M[ix[ki]][ix[kj]] += w
+        mats.append((sq["syms"][ka], M))
+    return start, mats, stop
+
+
+def maut_json(d):
+    start, mats, stop = d
+    fs = common.frac_str
+    return {"dim": len(start), "start": [fs(x) for x in start], "stop": [fs(x) for x in stop],
+            "arcs": [[a, [[fs(x) for x in row] for row in M]] for a, M in mats]}
+
+
+def _fclose(x, q, rtol, atol):
+    """a float of the real run (possibly nan/inf on a broken tree) against an exact value"""
+    try:
+        return common.close(Fraction(x), q, rtol, atol)
+    except (ValueError, OverflowError, TypeError):
+        return False
+
+
+def _same_entry(x, q, st):
+    """float of the real run (read as the exact rational it is) vs the mirror's Fraction"""
+    try:
+        fx = Fraction(x)
+    except (ValueError, OverflowError):
+        return False
+    if fx == q:
+        return True
+    st["inexact"] = True
+    return common.close(fx, q, 1e-12, 1e-15)
+
+
+def cmp_simple(real, sq):
+    """→ (why | None, order of the real run as keys, dict order of its matrices as keys, exact?)"""
+    if not isinstance(real, dict) or "order" not in real:
+        return "no dense form from the real run", None, None, False
+    if not real.get("order_ok"):
+        return "the numbering of epsremove.renumber could not be replayed", None, None, False
+    rk = [common.symkey(q) for q in real["order"]]
+    if sorted(rk) != sorted(sq["states"]) or real["dim"] != len(rk):
+        return f"states kept by simple: impl {sorted(rk)} model {sorted(sq['states'])}", None, None, False
+    ak = [common.symkey(a) for a, _ in real["arcs"]]
+    if sorted(ak) != sorted(sq["arcs"]):
+        return f"alphabet of simple: impl {sorted(ak)} model {sorted(sq['arcs'])}", None, None, False
+    start, mats, stop = dense(sq, rk, ak)
+    st = {}
+    if len(real["start"]) != len(rk) or len(real["stop"]) != len(rk):
+        return "shape of start/stop", None, None, False
+    for nm, rv, mv in (("start", real["start"], start), ("stop", real["stop"], stop)):
+        for i, (x, q) in enumerate(zip(rv, mv)):
+            if not _same_entry(x, q, st):
+                return f"{nm}[{rk[i]}]: impl {x!r} model {q}", None, None, False
+    for (a, RM), (_, MM) in zip(real["arcs"], mats):
+        if len(RM) != len(rk) or any(len(r) != len(rk) for r in RM):
+            return f"shape of the matrix of {a}", None, None, False
+        for i in range(len(rk)):
+            for j in range(len(rk)):
+                if not _same_entry(RM[i][j], MM[i][j], st):
+                    return f"arcs[{a}][{rk[i]},{rk[j]}]: impl {RM[i][j]!r} model {MM[i][j]}", None, None, False
+    return None, rk, ak, not st.get("inexact")
 
 
 W14 = [Fraction(1, 2), Fraction(1, 4), Fraction(3, 4), Fraction(1, 3), Fraction(2, 3), Fraction(1, 5), Fraction(3, 2), Fraction(1), Fraction(2), Fraction(5, 4), Fraction(1, 8)]
@@ -65,6 +292,13 @@ def make_case(rng, i, tier):
         # the second automaton knows a symbol the first one lacks and gives strings containing it non-zero weight
         b = json.loads(json.dumps(a))
         q0 = b["start"][0][0] if b["start"] else 0
+        if rng.random() < 0.6:
+            # … only AFTER a non-empty prefix: the foreign arc leaves a state that is not initial (the two automata then
+            # agree on every string that starts with the foreign symbol)
+            init = [json.dumps(q) for q, _ in b["start"]]
+            late = [e[2] for e in b["arcs"] if e[1] != "" and json.dumps(e[2]) not in init]
+            if late:
+                q0 = rng.choice(late)
         b["arcs"].append([q0, "z", "zfin", "1/2"])
         b["stop"].append(["zfin", "1"])
         if not b["start"]:
@@ -119,6 +353,42 @@ def corpus():
             {"kind": "corpus_F9", "a": empty, "b": dead, "xs": xs, "syms": ["a"]}]
 
 
+def _valid_alphabet(real, sqa, sqb):
+    """the real iteration order of `set(A.arcs) | set(B.arcs)` if it lists exactly the symbols of the two mirrors"""
+    want = set(sqa["arcs"]) | set(sqb["arcs"])
+    if isinstance(real, list):
+        ks = [common.symkey(a) for a in real]
+        if len(ks) == len(set(ks)) and set(ks) == want:
+            return real, True
+    syms = {**sqa["syms"], **sqb["syms"]}
+    return [syms[k] for k in sorted(want)], False
+
+
+def _cmp_maut(real, model, rtol, atol):
+    """real dense automaton (floats) vs the model's (exact): → (why | None, largest absolute deviation)"""
+    if real["dim"] != model["dim"]:
+        return f"dim: impl {real['dim']} model {model['dim']}", 0.0
+    worst = 0.0
+
+    def same(x, y):
+        nonlocal worst
+        fx = Fraction(x) if x == x and abs(x) != float("inf") else None
+        if fx is None:
+            return False
+        worst = max(worst, abs(float(fx - common.num(y))))
+        return common.close(fx, common.num(y), rtol, atol)
+    for nm in ("start", "stop"):
+        if len(real[nm]) != len(model[nm]) or not all(same(x, y) for x, y in zip(real[nm], model[nm])):
+            return f"{nm}: impl {real[nm]} model {model[nm]}", worst
+    ra, ma = {common.symkey(a): M for a, M in real["arcs"]}, {common.symkey(a): M for a, M in model["arcs"]}
+    if set(ra) != set(ma):
+        return f"symbols: impl {sorted(ra)} model {sorted(ma)}", worst
+    for k in ra:
+        if len(ra[k]) != len(ma[k]) or not all(len(r) == len(m) and all(same(x, y) for x, y in zip(r, m)) for r, m in zip(ra[k], ma[k])):
+            return f"matrix of {k}: impl {ra[k]} model {ma[k]}", worst
+    return None, worst
+
+
 def run(ctx):
     rng, tier = ctx["rng"], ctx["tier"]
     n = int((120 if tier == "quick" else 2500) * ctx.get("mult", 1))
@@ -130,12 +400,27 @@ def run(ctx):
     for i, c in enumerate(cases):
         c["id"] = i
     impl_res = ctx["run_impl"](cases, hashseeds, 12)
-    ops, verdicts = [], []
+    semantic, structural, samples = [], [], []
+    evaluations = traces = 0
+    nontrivial = set()
+    kinds = {}
+    stats = {"equivalent": 0, "different": 0, "skipped_singular_eps": 0, "rank_hist": {}, "min_checked": 0,
+             "simple_compared": 0, "simple_identical_to_the_rational_mirror": 0, "simple_within_1e-12": 0,
+             "model_runs": 0, "word_compared": 0, "word_same_as_model": 0, "word_differs": 0,
+             "min_automaton_compared": 0, "min_automaton_max_abs_dev": 0.0, "fwd_basis_compared": 0, "repeat_comparisons": 0,
+             "ill_conditioned_pairs": 0}
+
+    # ---- cross-check path (unverified search, verified certificate checkers) + the rational mirror of `simple`
+    cert_ops, verdicts, mirrors = [], [], []
     for c in cases:
         fa, fb = qlinalg.epsfree_matrix_form(c["a"]), qlinalg.epsfree_matrix_form(c["b"])
-        if fa is None or fb is None:
-            ops.append(None)
+        sqa, sqb = simple_q(c["a"]), simple_q(c["b"])
+        if fa is None or fb is None or sqa is None or sqb is None:
+            if (fa is None) != (sqa is None) or (fb is None) != (sqb is None):
+                raise common.DriverError(f"internal: the two ε-removals disagree on singularity for case {c['id']}")
+            cert_ops.append(None)
             verdicts.append(None)
+            mirrors.append(None)
             continue
         _, sa, Ma, fa_ = fa
         _, sb, Mb, fb_ = fb
@@ -150,105 +435,218 @@ def run(ctx):
             op["words"] = c["xs"]
         else:
             op["words"] = [data] + c["xs"]
-        ops.append(op)
+        cert_ops.append(op)
         verdicts.append((v, data, rank))
-    idx = [i for i, o in enumerate(ops) if o is not None]
-    lean = dict(zip(idx, ctx["lean"]([ops[i] for i in idx])))
-    semantic, structural, samples = [], [], []
-    evaluations = traces = 0
-    nontrivial = set()
-    kinds = {}
-    stats = {"equivalent": 0, "different": 0, "skipped_singular_eps": 0, "rank_hist": {}, "min_checked": 0}
+        mirrors.append((sqa, sqb))
+    idx = [i for i, o in enumerate(cert_ops) if o is not None]
+    cert = dict(zip(idx, ctx["lean"]([cert_ops[i] for i in idx])))
+
+    # ---- primary oracle: the verified procedure, on the mirror laid out as the real run laid out `simple`
+    # (state numbering, alphabet iteration order and dict order of the matrices of THIS hash seed)
+    mops, mkey = [], {}
+
+    def model_op(o):
+        k = json.dumps(o, sort_keys=True)
+        if k not in mkey:
+            mkey[k] = len(mops)
+            mops.append(o)
+        return mkey[k]
+    plan = {}
     for k, c in enumerate(cases):
-        kinds[c["kind"]] = kinds.get(c["kind"], 0) + 1
-        if k not in lean:
-            stats["skipped_singular_eps"] += 1
+        if mirrors[k] is None:
             continue
-        L = lean[k]
+        sqa, sqb = mirrors[k]
+        for hs in hashseeds:
+            res = impl_res[hs].get(c["id"])
+            res = res if isinstance(res, dict) and "exc" not in res else {}
+            p = {"struct": []}
+            lay = {}
+            for side, sq in (("a", sqa), ("b", sqb)):
+                why, order, arc_order, exact = cmp_simple(res.get("simple_" + side), sq)
+                if res:
+                    evaluations += 1
+                    stats["simple_compared"] += 1
+                    if why:
+                        p["struct"].append(("simple", f"WFSA.simple of {side}: {why}" + (f" [{res['simple_exc']}]" if "simple_exc" in res else "")))
+                    else:
+                        traces += 1
+                        stats["simple_identical_to_the_rational_mirror" if exact else "simple_within_1e-12"] += 1
+                lay[side] = order if order is not None else sq["states"]
+            al, real_al = _valid_alphabet(res.get("alphabet"), sqa, sqb)
+            if res and not real_al:
+                p["struct"].append(("alphabet", f"iteration alphabet: impl {res.get('alphabet')} model {al}"))
+            p["real_alphabet"] = real_al
+            ce = res.get("ce")
+            words = ([ce["word"]] if isinstance(ce, dict) and "word" in ce else []) + c["xs"]
+            p["equiv"] = model_op({"op": "tzeng_equiv", "R": "Float", "a": maut_json(dense(sqa, lay["a"])), "b": maut_json(dense(sqb, lay["b"])),
+                                   "alphabet": al, "words": words})
+            p["nwords"] = len(words)
+            # `min`: its own WFSA object in the real run, hence its own layout
+            why, order, arc_order, _ = cmp_simple(res.get("min_src"), sqa)
+            if res and "min_src" in res and why:
+                p["struct"].append(("simple", f"WFSA.simple of a (the object minimised): {why}"))
+            p["min_layout"] = why is None
+            p["min"] = model_op({"op": "tzeng_min", "R": "Float", "a": maut_json(dense(sqa, order if order is not None else sqa["states"], arc_order)),
+                                 "words": c["xs"], "full": True})
+            plan[(k, hs)] = p
+    model = ctx["lean"](mops)
+    stats["model_runs"] = len(mops)
+    for L in model:
         if "error" in L:
             raise common.DriverError(L["error"])
+        # hypotheses of the theorems that make the answer a verdict
+        if not (L.get("a_wf") and L.get("b_wf", True) and L.get("alphabet_complete", True) and L.get("fuel_sufficient")) or L.get("outcome") == "out_of_fuel":
+            raise common.DriverError(f"internal: verified procedure run outside its hypotheses: { {k: L.get(k) for k in ('a_wf', 'b_wf', 'alphabet_complete', 'fuel_sufficient', 'outcome')} }")
+
+    for k, c in enumerate(cases):
+        kinds[c["kind"]] = kinds.get(c["kind"], 0) + 1
+        if k not in cert:
+            stats["skipped_singular_eps"] += 1
+            continue
+        C = cert[k]
+        if "error" in C:
+            raise common.DriverError(C["error"])
         v, data, rank = verdicts[k]
-        # the certified answer
+        # the certified answer of the cross-check path
         if v == "equiv":
-            if not L.get("equiv_cert_ok"):
+            if not C.get("equiv_cert_ok"):
                 raise common.DriverError(f"internal: equivalence certificate rejected for case {k}")
-            stats["equivalent"] += 1
-        else:
-            if common.num(L["wa"][0]) == common.num(L["wb"][0]):
-                raise common.DriverError(f"internal: counterexample word does not separate for case {k}")
-            stats["different"] += 1
-        if not L.get("rank_lower_ok"):
+        elif common.num(C["wa"][0]) == common.num(C["wb"][0]):
+            raise common.DriverError(f"internal: counterexample word does not separate for case {k}")
+        if not C.get("rank_lower_ok"):
             raise common.DriverError(f"internal: Hankel certificate rejected for case {k}")
-        if L["rank_lower"] != rank:
+        if C["rank_lower"] != rank:
             raise common.DriverError(f"internal: minor smaller than Hankel rank for case {k}")
+        cert_w = [common.num(x) for x in C["wa"][-len(c["xs"]):]]
+        # ---- the two paths must agree (verdict, rank, exact weights): otherwise the harness itself is broken
+        for hs in hashseeds:
+            p = plan[(k, hs)]
+            Le, Lm = model[p["equiv"]], model[p["min"]]
+            if (Le["outcome"] == "none") != (v == "equiv"):
+                raise common.DriverError(f"internal: verified procedure says {Le['outcome']} but the certificate path says {v} for case {k}")
+            if Lm["dim"] != rank or Lm["fwd_dim"] < rank or not Lm.get("min_wf"):
+                raise common.DriverError(f"internal: minQ has {Lm['dim']} states but the certified Hankel rank is {rank} for case {k}")
+            nx = len(c["xs"])
+            if ([common.num(x) for x in Lm["wa"]] != cert_w or [common.num(x) for x in Lm["min_weights"]] != cert_w
+                    or [common.num(x) for x in Le["wa"][-nx:]] != cert_w):
+                raise common.DriverError(f"internal: exact weights of the two constructions of the automaton differ for case {k}")
+            if Le["outcome"] == "some":
+                w = common.num(Le["va"]), common.num(Le["vb"])
+                if w[0] == w[1]:
+                    raise common.DriverError(f"internal: model counterexample does not separate for case {k}")
+        stats["equivalent" if v == "equiv" else "different"] += 1
         stats["rank_hist"][str(rank)] = stats["rank_hist"].get(str(rank), 0) + 1
         nontrivial.add(hashlib.sha1(json.dumps([c["a"], c["b"]], sort_keys=True).encode()).hexdigest())
-        well = True
-        if v == "diff":   # well-conditioned only: a difference below 1e-6 relative is not decidable in floats
-            da, db = float(common.num(L["wa"][0])), float(common.num(L["wb"][0]))
-            well = abs(da - db) > 1e-5 * max(1.0, abs(da), abs(db))
         for hs in hashseeds:
+            p = plan[(k, hs)]
+            Le, Lm = model[p["equiv"]], model[p["min"]]
+            equiv = Le["outcome"] == "none"
             res = impl_res[hs].get(c["id"])
             if res is None or "exc" in res:
                 semantic.append(_viol(c, hs, "worker", res))
                 continue
+            for nm, what in p["struct"]:
+                structural.append({"op": nm, "what": what, "hashseed": hs, "case": {kk: vv for kk, vv in c.items() if not kk.startswith("_")}})
+            well = True
+            if not equiv:   # well-conditioned only: a difference below 1e-5 relative is not decidable in floats
+                da, db = float(common.num(Le["va"])), float(common.num(Le["vb"]))
+                well = abs(da - db) > 1e-5 * max(1.0, abs(da), abs(db))
+                if not well:
+                    stats["ill_conditioned_pairs"] += 1
             ce = res.get("ce")
             evaluations += 1
+            bad = None
             if isinstance(ce, dict) and "exc" in ce:
-                semantic.append(_viol(c, hs, "counterexample", ce))
-            elif v == "equiv":
+                bad = ce
+            elif equiv:
+                # (a) no counterexample iff the verified procedure finds none; (b) == and hash agree with it
                 if ce is not None or not res.get("eq") or not res.get("hash_eq"):
-                    semantic.append(_viol(c, hs, "counterexample", {"certified": "equivalent", "impl_counterexample": ce, "eq": res.get("eq"), "hash_eq": res.get("hash_eq")}))
+                    bad = {"verified_verdict": "equivalent", "impl_counterexample": ce, "eq": res.get("eq"), "hash_eq": res.get("hash_eq")}
+            elif well and (ce is None or res.get("eq")):
+                bad = {"verified_verdict": "different", "model_counterexample": [Le["word"], Le["va"], Le["vb"]], "impl_counterexample": ce, "eq": res.get("eq")}
+            if bad is None and isinstance(ce, dict) and "word" in ce:
+                # (a) a returned word is a genuine counterexample with the two weights reported: the model's exact weights of it
+                wa, wb = common.num(Le["wa"][0]), common.num(Le["wb"][0])
+                evaluations += 1
+                if wa == wb or not _fclose(ce["va"], wa, 1e-9, 1e-12) or not _fclose(ce["vb"], wb, 1e-9, 1e-12):
+                    bad = {"returned": ce, "verified_weights_of_that_word": [str(wa), str(wb)]}
+                elif not equiv and p["real_alphabet"]:
+                    # same iteration order: the search of the code and of the model should stop at the same word (recorded, not demanded)
+                    stats["word_compared"] += 1
+                    if ce["word"] == Le["word"]:
+                        stats["word_same_as_model"] += 1
+                        traces += 1
+                    else:
+                        stats["word_differs"] += 1
+                        stats.setdefault("word_differs_examples", [])
+                        if len(stats["word_differs_examples"]) < 5:
+                            stats["word_differs_examples"].append({"case": c["id"], "hashseed": hs, "impl": ce["word"], "model": Le["word"], "alphabet": Le["alphabet"]})
+            if bad is not None:
+                semantic.append(_viol(c, hs, "counterexample", bad))
+            else:
+                traces += 1
+            # the same verdict every time the long-lived object is asked again, whatever became of earlier partners
+            seq = res.get("seq")
+            if isinstance(seq, dict):
+                semantic.append(_viol(c, hs, "repeat", seq))
+            elif isinstance(seq, list):
+                evaluations += len(seq)
+                stats["repeat_comparisons"] += len(seq)
+                got = [[r is None, e] for r, e in seq]
+                want = [[ce is None, ce is None] if i % 2 == 0 else [True, True] for i in range(len(seq))]
+                if got != want and bad is None:
+                    semantic.append(_viol(c, hs, "repeat", {"partners": "b, a, b, a, … (fresh objects, dead after each comparison)", "no_counterexample_and_eq": got, "expected": want}))
                 else:
                     traces += 1
-            elif well:
-                if ce is None or res.get("eq"):
-                    semantic.append(_viol(c, hs, "counterexample", {"certified": "different", "separating_word": data, "wa": L["wa"][0], "wb": L["wb"][0], "impl": "no counterexample"}))
-                else:
-                    traces += 1
-            if isinstance(ce, dict) and "word" in ce:
-                # any counterexample returned must really separate: re-evaluated below by a second driver call
-                c.setdefault("_ce", []).append((hs, ce))
+            # (c) minimisation
             md = res.get("min_dim")
             evaluations += 1
             stats["min_checked"] += 1
+            mw = [common.num(x) for x in Lm["wa"]]
             if isinstance(md, dict):
                 semantic.append(_viol(c, hs, "min", md))
-            elif md != rank:
-                semantic.append(_viol(c, hs, "min", {"min_dim": md, "certified_hankel_rank": rank}))
-            elif any(not common.close(Fraction(x), Fraction(y), 1e-6, 1e-8) for x, y in zip(res["min_vals"], res["a_vals"])):
-                semantic.append(_viol(c, hs, "min", {"min_vals": res["min_vals"], "a_vals": res["a_vals"]}))
-            elif any(not common.close(Fraction(y), common.num(o), 1e-7, 1e-9) for y, o in zip(res["a_vals"], L["wa"][-len(c["xs"]):])):
-                semantic.append(_viol(c, hs, "call", {"a_vals": res["a_vals"], "certified": L["wa"][-len(c["xs"]):]}))
+            elif md != Lm["dim"]:
+                semantic.append(_viol(c, hs, "min", {"min_dim": md, "verified_minimal_dim": Lm["dim"]}))
+            elif any(not _fclose(x, y, 1e-6, 1e-8) for x, y in zip(res["min_vals"], mw)):
+                semantic.append(_viol(c, hs, "min", {"min_vals": res["min_vals"], "verified_weights": [str(x) for x in mw]}))
+            elif any(not _fclose(y, o, 1e-7, 1e-9) for y, o in zip(res["a_vals"], mw)):
+                semantic.append(_viol(c, hs, "call", {"a_vals": res["a_vals"], "verified_weights": [str(x) for x in mw]}))
             else:
                 traces += 1
+                # structural: the minimal automaton and the forward basis themselves (same dict order of the matrices)
+                ms = res.get("min_simple")
+                if isinstance(ms, dict) and "exc" not in ms and p["min_layout"]:
+                    evaluations += 1
+                    stats["min_automaton_compared"] += 1
+                    why, dev = _cmp_maut(ms, Lm["min"], 1e-5, 1e-6)   # float Gram–Schmidt + pinv: observed deviations ≤ 2e-9 on 7 500 runs
+                    stats["min_automaton_max_abs_dev"] = max(stats["min_automaton_max_abs_dev"], dev)
+                    fbr = res.get("fwd_basis")
+                    if why is None and fbr is not None:
+                        stats["fwd_basis_compared"] += 1
+                        fbm = Lm["fwd_basis"]
+                        if len(fbr) != len(fbm) or any(len(r) != len(m) or any(not _fclose(x, common.num(y), 1e-5, 1e-6) for x, y in zip(r, m)) for r, m in zip(fbr, fbm)):
+                            why = f"forward_basis: impl {fbr} model {fbm}"
+                    if why:
+                        structural.append({"op": "min", "what": "Simple.min vs minQ: " + why, "hashseed": hs, "case": {kk: vv for kk, vv in c.items() if not kk.startswith("_")}})
+                    else:
+                        traces += 1
+                elif isinstance(ms, dict) and "exc" in ms:
+                    structural.append({"op": "min", "what": f"Simple.min not observable: {ms}", "hashseed": hs, "case": {kk: vv for kk, vv in c.items() if not kk.startswith("_")}})
         if len(samples) < 4:
-            samples.append({"a": c["a"], "b": c["b"], "certified": v, "hankel_rank": rank, "impl": impl_res[hashseeds[0]].get(c["id"])})
-    # re-evaluate returned counterexamples with the verified evaluator
-    ce_ops, ce_idx = [], []
-    for k, c in enumerate(cases):
-        for hs, ce in c.pop("_ce", []):
-            o = dict(ops[k])
-            o.pop("cert", None)
-            o.pop("rank", None)
-            o["words"] = [ce["word"]]
-            ce_ops.append(o)
-            ce_idx.append((c, hs, ce))
-    for (c, hs, ce), L in zip(ce_idx, ctx["lean"](ce_ops)):
-        evaluations += 1
-        wa, wb = common.num(L["wa"][0]), common.num(L["wb"][0])
-        if wa == wb or not common.close(Fraction(ce["va"]), wa, 1e-6, 1e-8) or not common.close(Fraction(ce["vb"]), wb, 1e-6, 1e-8):
-            semantic.append(_viol(c, hs, "counterexample", {"returned": ce, "verified_weights": [str(wa), str(wb)]}))
-        else:
-            traces += 1
+            L0 = model[plan[(k, hashseeds[0])]["equiv"]]
+            r0 = impl_res[hashseeds[0]].get(c["id"])
+            samples.append({"a": c["a"], "b": c["b"], "verified": {kk: L0.get(kk) for kk in ("outcome", "word", "va", "vb", "alphabet")}, "cross_check": v,
+                            "minimal_dim": rank, "impl": {kk: r0.get(kk) for kk in ("ce", "eq", "hash_eq", "min_dim", "alphabet")} if isinstance(r0, dict) else r0})
     return {
         "evaluations": evaluations, "distinct_nontrivial": len(nontrivial),
         "rule": "seeded pairs of real-weighted automata: equal by construction (renamed, split weights, useless/redundant states), one weight perturbed, "
-                "independent, identical, empty language; fractional (also non-dyadic) weights, ε arcs; every pair has a machine-checked verdict",
+                "independent, identical, empty language, a foreign symbol (first or after a prefix); fractional (also non-dyadic) weights, ε arcs; "
+                "every verdict comes from the verified decision procedure and is cross-checked by a machine-checked certificate",
         "samples": samples, "traces": traces, "semantic": semantic, "structural": structural,
-        "extra": {"kind_histogram": kinds, "hashseeds": hashseeds, "stats": stats, "cases": len(cases)},
-        "assumptions": ["certificate SEARCH (harness/qlinalg.py) and exact ε-removal are unverified; every verdict they produce is re-checked by the verified Lean checkers",
-                        "pairs that differ by less than 1e-5 relative on the separating word are not required to be told apart by the float implementation"],
+        "extra": {"oracle": ORACLE, "cross_check": "harness/qlinalg.py certificate search + verified checkers equivCertCheck / rankLowerCheck (must agree with the oracle, else exit 2)",
+                  "kind_histogram": kinds, "hashseeds": hashseeds, "stats": stats, "cases": len(cases)},
+        "assumptions": ["the dense form handed to the verified procedure is built by the harness (simple_q, exact ε-removal) — compared entry by entry with the real WFSA.simple on every case",
+                        "pairs that differ by less than 1e-5 relative on the model's separating word are not required to be told apart by the float implementation"],
         "trusted": ["numpy/float behaviour of field_wfsa is modelled, not verified"],
     }
 
